@@ -131,6 +131,8 @@ def main(argv=None):
     t0 = time.time()
     from . import loader
     loader.install()
+    import logging
+    logging.disable(logging.CRITICAL)
     import spsdk
     assert spsdk.__file__.startswith(REPO + "/"), spsdk.__file__
     hnames = harness_modules(prop)
@@ -184,13 +186,17 @@ def main(argv=None):
     if len(vjobs) > nval_max:
         vjobs = rnd.sample(vjobs, nval_max)
     # cap counterexample replays per (harness,label)
-    per = {}
+    per, perlabel = {}, {}
     kept = []
     for j in cjobs:
         k = (j["harness"], j["label"], j["case"].get("id"))
+        kl = (j["harness"], j["label"])
         per[k] = per.get(k, 0) + 1
-        if per[k] <= 2:
-            kept.append(j)
+        if per[k] <= 1:
+            perlabel[kl] = perlabel.get(kl, 0) + 1
+            # replays that wait for a non-termination time limit are expensive: keep fewer of them
+            if perlabel[kl] <= (3 if "Timeout" in j["label"] else 12):
+                kept.append(j)
     cjobs = kept
     outs = run_concrete_jobs(cjobs + vjobs)
     known = load_known()
